@@ -155,6 +155,64 @@ def on_frontier(ctx, workload, a, kw, result):
             ctx.probe("scheduled_task_offered")
     ctx.last_offer = (now, got, dict(lookahead=la, retract=retract, rel_tg=rel_tg,
                                      preemption=preemption))
+    monotonicity_probes(ctx, workload, a, kw, got, now, la, rel_tg)
+
+
+def monotonicity_probes(ctx, workload, a, kw, got, now, la, rel_tg):
+    """increasing the lookahead or releasing whole task graphs only adds tasks to the offer (extra
+    calls at the same instant on the same state, RNG state restored; branch policies that draw
+    random numbers are skipped)."""
+    import random
+
+    from utils import EventTime
+    from workload import BranchPredictionPolicy
+
+    policy = _arg(a, kw, 5, "policy", BranchPredictionPolicy.ALL)
+    if policy == BranchPredictionPolicy.RANDOM:
+        return
+    if ctx.frontier_calls % 3 != 0:  # one call in three is probed (cost)
+        return
+    time = _arg(a, kw, 0, "time", None)
+    preemption = _arg(a, kw, 2, "preemption", False)
+    retract = _arg(a, kw, 3, "retract_schedules", False)
+    wps = _arg(a, kw, 4, "worker_pools", None)
+    acc = _arg(a, kw, 6, "branch_prediction_accuracy", 0.5)
+    st = random.getstate()
+    ctx.in_probe = True
+    try:
+        def call(la_, rel_):
+            r = workload.get_schedulable_tasks(time, EventTime(la_, EventTime.Unit.US), preemption, retract,
+                                               wps, policy, acc, rel_)
+            return {id(t): t for t in r}
+
+        same = call(la, rel_tg)
+        if set(same) != set(got):
+            ctx.violate("C18", "offer_not_a_function_of_state",
+                        f"two identical frontier queries at t={now} returned different offers", {})
+            return
+        ctx.probe("c18_monotonicity_probed")
+        for d in (1, 4, 15):
+            bigger = call(la + d, rel_tg)
+            lost = [t.unique_name for i, t in got.items() if i not in bigger]
+            if lost:
+                ctx.violate("C18", "lookahead_not_monotone",
+                            f"at t={now} raising the lookahead from {la} to {la + d} removes {lost} from the offer",
+                            {"release_taskgraphs": bool(rel_tg), "retract": bool(retract)})
+                return
+            if len(bigger) > len(got):
+                ctx.probe("c18_lookahead_added_tasks")
+        if not rel_tg:
+            whole = call(la, True)
+            lost = [t.unique_name for i, t in got.items() if i not in whole]
+            if lost:
+                ctx.violate("C18", "release_taskgraphs_not_monotone",
+                            f"at t={now} release_taskgraphs=True removes {lost} from the offer (lookahead {la})",
+                            {"retract": bool(retract)})
+            elif len(whole) > len(got):
+                ctx.probe("c18_release_taskgraphs_added_tasks")
+    finally:
+        ctx.in_probe = False
+        random.setstate(st)
 
 
 def pre_completion(ctx, tg, task):
@@ -305,6 +363,7 @@ def post_run(ctx, rows, res):
         tracecheck.post_c08(ctx, parsed, rows, res)
         post_c02_trace(ctx, parsed)
         post_c18(ctx, parsed)
+        post_c12(ctx)
 
 
 # ----------------------------------------------------------------------- C05
@@ -707,3 +766,33 @@ def post_c02_trace(ctx, parsed):
 # ----------------------------------------------------------------------- C18 starvation
 def post_c18(ctx, parsed):
     pass
+
+
+# ----------------------------------------------------------------------- C12 (end to end)
+def post_c12(ctx):
+    """in runs of the planners with enforcement and exact runtimes every task that completes does so by
+    its deadline -- evaluated for tasks that started at the time their planner chose; a start that was
+    legitimately deferred (WORKER_NOT_READY / TASK_NOT_READY) is counted, not alarmed."""
+    pol = ctx.world["policy"]
+    name = pol["name"]
+    if name not in ("ILP", "TetriSchedGurobi", "TetriSchedCPLEX", "Clockwork"):
+        return
+    if not pol.get("enforce_deadlines") or ctx.variance:
+        return
+    if name == "ILP" and pol.get("release_taskgraphs"):
+        return
+    if (ctx.world.get("faults", {}).get("solver_chaos") or {}).get("on"):
+        pass  # alternative feasible points must respect deadlines as well
+    for s in ctx.shadows.values():
+        if not s.finishes or s.finish_time is None:
+            continue
+        dl = _us(s.task.deadline)
+        ctx.probe("c12_completed_task_checked")
+        if s.finish_time > dl:
+            if s.ever_deferred or s.start_time != s.chosen_time:
+                ctx.probe("c12_late_after_deferral")
+                continue
+            ctx.violate("C12", "completed_after_deadline",
+                        f"{name} with deadline enforcement and exact runtimes: {s.uname} started at its planned "
+                        f"time {s.start_time} and completed at {s.finish_time} > deadline {dl}", {"policy": name})
+            return
